@@ -1,5 +1,16 @@
-"""setup + self-tests (determinism, mutants, regressions)."""
+"""setup + self-tests: determinism (same seed twice, other process, other hash seed),
+sensitivity (source mutants must be caught by the property's quick tier) and regressions
+(replays of fixed defects must fail on the pre-fix source and pass on the working tree)."""
+import json
+import os
+import shutil
+import subprocess
 import sys
+import time
+from pathlib import Path
+
+VERIF = Path(__file__).resolve().parent.parent
+MUT_ROOT = Path('/dev/shm/replicat-verif-selftest')
 
 
 def setup():
@@ -7,9 +18,137 @@ def setup():
     so = native.build(verbose=True)
     native.import_replicat()
     print('shim ok:', so)
-    return 0
+    rc = determinism(['C09'], seeds=12, quiet=True)
+    print('setup determinism smoke:', 'ok' if rc == 0 else 'FAILED')
+    return rc
+
+
+def _copy_repo(dest, ref=None):
+    shutil.rmtree(dest, ignore_errors=True)
+    dest.mkdir(parents=True)
+    if ref is None:
+        for name in ('replicat', 'src'):
+            shutil.copytree(Path('/repo') / name, dest / name, ignore=shutil.ignore_patterns('__pycache__', 'tests'))
+    else:
+        subprocess.run(f'git -C /repo archive {ref} replicat src | tar -x -C {dest}', shell=True, check=True)
+        shutil.rmtree(dest / 'replicat' / 'tests', ignore_errors=True)
+
+
+def _run_check(prop, src, budget, extra_env=None, tier='quick'):
+    env = dict(os.environ)
+    env.update({'REPLICAT_SRC': str(src), 'VERIF_EVIDENCE_DIR': str(MUT_ROOT / 'evidence'),
+                'VERIF_REPLAY_DIR': str(MUT_ROOT / 'replays'), 'VERIF_SCRATCH': str(MUT_ROOT / 'scratch'),
+                'VERIF_BUDGET_S': str(budget)})
+    env.update(extra_env or {})
+    r = subprocess.run([sys.executable, str(VERIF / 'run.py'), 'check', prop, '--tier', tier], env=env,
+                       capture_output=True, text=True)
+    return r
+
+
+def mutants(props=None, budget=40):
+    mdir = VERIF / 'selftest' / 'mutants'
+    results = []
+    for diff in sorted(mdir.glob('*.diff')):
+        prop = diff.name.split('-')[0]
+        if props and prop not in props:
+            continue
+        src = MUT_ROOT / 'src' / diff.stem
+        _copy_repo(src)
+        p = subprocess.run(['patch', '-p1', '-s', '-i', str(diff)], cwd=src, capture_output=True, text=True)
+        if p.returncode != 0:
+            results.append((diff.stem, 'PATCH-FAILED', p.stdout + p.stderr))
+            print(f'{diff.stem}: PATCH-FAILED {p.stdout.strip()[:200]}')
+            continue
+        t0 = time.time()
+        r = _run_check(prop, src, budget)
+        caught = r.returncode == 1 and 'VIOLATION property=' + prop in r.stdout
+        cls = [l.strip() for l in r.stdout.splitlines() if l.strip().startswith('class=')]
+        results.append((diff.stem, 'caught' if caught else f'MISSED(exit={r.returncode})', cls[:2]))
+        print(f'{diff.stem}: {"caught" if caught else "MISSED exit=" + str(r.returncode)} in {time.time() - t0:.0f}s '
+              f'{(cls[0][:150] if cls else r.stdout.strip().splitlines()[-1][:200] if r.stdout.strip() else r.stderr[-300:])}')
+        shutil.rmtree(src, ignore_errors=True)
+    shutil.rmtree(MUT_ROOT, ignore_errors=True)
+    missed = [r for r in results if r[1] != 'caught']
+    print(f'mutants: {len(results) - len(missed)}/{len(results)} caught')
+    return 1 if missed else 0
+
+
+def regressions():
+    """Each replay of a fixed defect must reproduce on the parent of its fix commit and not on the working tree."""
+    kf = json.loads((VERIF / 'known_findings.json').read_text())
+    bad = 0
+    for f in kf['findings']:
+        if f.get('status') != 'fixed' or not f.get('regression'):
+            continue
+        rp = VERIF / f['regression']
+        src = MUT_ROOT / 'src' / ('pre-' + f['id'])
+        _copy_repo(src, ref=f['commit'] + '^')
+        env = dict(os.environ, REPLICAT_SRC=str(src), VERIF_SCRATCH=str(MUT_ROOT / 'scratch'))
+        r1 = subprocess.run([sys.executable, str(VERIF / 'run.py'), 'replay', str(rp)], env=env, capture_output=True, text=True)
+        env2 = dict(os.environ, VERIF_SCRATCH=str(MUT_ROOT / 'scratch'))
+        env2.pop('REPLICAT_SRC', None)
+        r2 = subprocess.run([sys.executable, str(VERIF / 'run.py'), 'replay', str(rp)], env=env2, capture_output=True, text=True)
+        ok = r1.returncode in (1, 2) and ('REPRODUCED' in r1.stdout or 'REPLAY-DIVERGED' in r1.stdout) and r2.returncode == 0
+        print(f'{f["id"]}: pre-fix {"fails" if r1.returncode else "passes"} / working tree {"passes" if r2.returncode == 0 else "fails"} -> {"ok" if ok else "BAD"}')
+        bad += not ok
+        shutil.rmtree(src, ignore_errors=True)
+    shutil.rmtree(MUT_ROOT, ignore_errors=True)
+    return 1 if bad else 0
+
+
+def _digests(prop, seeds, hashseed, tier='quick'):
+    code = (
+        "import sys, json\n"
+        f"sys.path.insert(0, {str(VERIF)!r})\n"
+        "from sim import native\nnative.import_replicat()\nfrom sim import runner\n"
+        f"mod = runner.get_check({prop!r})\nout = {{}}\n"
+        f"for seed in {list(seeds)!r}:\n"
+        f"    r = mod.run_case(mod.gen_case(seed, {tier!r}))\n"
+        "    out[seed] = [r.get('digest'), sorted(v['cls'] for v in r['violations'])]\n"
+        "print('DIGESTS' + json.dumps(out))\n")
+    env = dict(os.environ, PYTHONHASHSEED=str(hashseed))
+    r = subprocess.run([sys.executable, '-c', code], env=env, capture_output=True, text=True, cwd=str(VERIF))
+    for line in r.stdout.splitlines():
+        if line.startswith('DIGESTS'):
+            return json.loads(line[7:])
+    raise RuntimeError(f'digest run failed: {r.stdout[-500:]} {r.stderr[-1500:]}')
+
+
+def determinism(props, seeds=40, quiet=False):
+    """Same seeds: twice in fresh interpreters (in different orders), and under another
+    PYTHONHASHSEED (verdicts must agree; digests must agree for equal pins)."""
+    from concurrent.futures import ThreadPoolExecutor
+    base = 7_000_000
+
+    def one(prop):
+        # the three runs of one property share scratch paths (a function of (check, seed)),
+        # so they run one after the other; properties run side by side
+        sl = list(range(base, base + seeds))
+        a = _digests(prop, sl, 0)
+        b = _digests(prop, list(reversed(sl)), 0)
+        c = _digests(prop, sl, 12345)
+        d1 = [s for s in a if a[s] != b[s]]
+        d2 = [s for s in a if a[s][1] != c[s][1]]
+        return prop, d1, d2
+
+    bad = 0
+    with ThreadPoolExecutor(8) as ex:
+        for prop, d1, d2 in ex.map(one, props):
+            if not quiet or d1 or d2:
+                print(f'{prop}: {seeds} seeds x2 fresh interpreters (reversed order): {len(d1)} digest mismatches; '
+                      f'PYTHONHASHSEED=12345: {len(d2)} verdict mismatches' + (f' e.g. {d1[:3]} {d2[:3]}' if d1 or d2 else ''))
+            bad += bool(d1 or d2)
+    return 1 if bad else 0
 
 
 def main(args):
-    print('selftest: not implemented yet')
-    return 0
+    props = args.props.split(',') if args.props else None
+    rc = 0
+    if args.what in ('determinism', 'all'):
+        allp = props or sorted(p.stem.upper() for p in (VERIF / 'checks').glob('c[0-9]*.py'))
+        rc |= determinism(allp, seeds=args.seeds)
+    if args.what in ('mutants', 'all'):
+        rc |= mutants(props)
+    if args.what in ('regressions', 'all'):
+        rc |= regressions()
+    return rc
